@@ -300,6 +300,23 @@ def make_cases(r, tier):
     for k, combo in enumerate(chosen):
         for lang in ("C", "CPP"):
             cases.append(lx.LCase("shapes:%s" % ",".join(combo), lang, "\n".join(combo) + "\n", allshapes))
+    # boolean expressions with nested groups - subscripts, calls, initialiser braces, templates, lambdas - that themselves hold comparisons, '?:', ',',
+    # '&&', '||': the parenthesis adders must treat each group as one operand (round-5 seed: check_bool_parens() no longer skipped '[...]' and
+    # wrote 'a[i) ? 1 : 2]'); every paren option singly and together, in every tier
+    nested = ("int f(int *a, int i, int c, int d)\n{\n"
+              "   if (c == a[i ? 1 : 2] || c)\n   {\n      return 1;\n   }\n"
+              "   if (a[i == 1 && c] != 0 && d)\n      return 2;\n"
+              "   while (c != g(i == 2, d ? 1 : 0) && d < a[i > 0 || c])\n      c--;\n"
+              "   d = c == a[i, 1] || d != 3;\n"
+              "   c = a[d < 2 ? i : 0] == 1 && g(c || d, 2) != 0;\n"
+              "   return c == a[i && d ? 1 : 2] || d == g(a[i || c], c && d);\n}\n")
+    nested_cpp = nested + ("bool h(int c, int d)\n{\n   auto l = [](int x) { return x == 1 || x > 3; };\n"
+                           "   if (c == std::max<int>(d, 2) || l(c && d) != true)\n      return c == T<(1 > 0)>::v && d;\n"
+                           "   return S{ c == 1 || d, 2 }.a != 0 || d;\n}\n")
+    paren_opts = ["mod_full_paren_if_bool=true", "mod_full_paren_assign_bool=true", "mod_full_paren_return_bool=true"]
+    for combo in [[o] for o in paren_opts] + [paren_opts, paren_opts + ["mod_paren_on_return=add"], paren_opts + ["mod_paren_on_return=remove", "mod_full_brace_if=add"]]:
+        cases.append(lx.LCase("nested-groups:C:%s" % ",".join(combo), "C", "\n".join(combo) + "\n", nested.encode()))
+        cases.append(lx.LCase("nested-groups:CPP:%s" % ",".join(combo), "CPP", "\n".join(combo) + "\n", nested_cpp.encode()))
     for i, c in enumerate(lx.corpus_cases(r, nc)):
         c.cfg_text = "\n".join(mod_config(r)) + "\n"
         cases.append(c)
